@@ -51,7 +51,9 @@ func (g *Gen) RandomUniverse() *Universe {
 		for f := 0; f < nf; f++ {
 			fn := fmt.Sprintf("f%d", f)
 			var t *TRef
-			switch g.pick(9) {
+			switch g.pick(10) {
+		case 9:
+			t = listOf(listOf(named(names[1+g.pick(nt)])))
 			case 0, 1:
 				t = named("String")
 			case 2:
@@ -160,6 +162,26 @@ func keyFor(name string, args []Arg, aliased bool) string {
 }
 
 func (g *Gen) argValue(t *TRef) Value {
+	switch t.K {
+	case "nonnull":
+		return g.argValue(t.Of)
+	case "list":
+		n := g.pick(3)
+		l := make([]Value, 0, n)
+		for i := 0; i < n; i++ {
+			l = append(l, g.argValue(t.Of))
+		}
+		return List(l)
+	}
+	if td, ok := g.U.Types[t.N]; ok && td.Kind == "INPUT_OBJECT" {
+		o := map[string]Value{}
+		for _, f := range td.InFields {
+			if f.Type.K == "nonnull" || g.pick(2) == 0 {
+				o[f.N] = g.argValue(f.Type)
+			}
+		}
+		return Obj(o)
+	}
 	base := t.Base()
 	lit := func() Value {
 		switch base {
@@ -266,6 +288,19 @@ func (g *Gen) sels(tn string, depth int) []Sel {
 			}
 			out = append(out, Sel{K: "inline", Cond: cond, Dirs: g.dirs(), Sels: g.sels(target, depth-1)})
 		case c == 2 && depth > 0:
+			// sometimes spread an already defined fragment on this type again (with its own directives)
+			if g.pick(5) < 2 {
+				var same []string
+				for _, f := range g.frags {
+					if f.Cond == tn {
+						same = append(same, f.Name)
+					}
+				}
+				if len(same) > 0 {
+					out = append(out, Sel{K: "spread", Name: same[g.pick(len(same))], Dirs: g.dirs()})
+					continue
+				}
+			}
 			g.nfrag++
 			name := fmt.Sprintf("F%d", g.nfrag)
 			cond := tn
